@@ -56,9 +56,10 @@ def _tt(fr):
     return TimeType.from_fraction(fr.numerator, fr.denominator)
 
 
-PALETTE_KEYS = ['ramp2', 'tab1', 'c05a', 'c05b', 'cm', 'fun1', 'rramp', 'rfun', 'mc', 'mcc', 'seq',
+PALETTE_KEYS = ['ramp2', 'tab1', 'c05a', 'c05b', 'cm', 'fun1', 'rramp', 'rfun', 'mc', 'mcc', 'seq', 'z0', 'z1', 'mk0', 'mk1',
                 'k32', 'k35', 'k128', 'k70', 'k6', 'k12']
-SMALL_KEYS = ['ramp2', 'tab1', 'c05a', 'c05b', 'cm', 'fun1', 'rramp', 'rfun', 'mc', 'mcc', 'seq']
+SMALL_KEYS = ['ramp2', 'tab1', 'z0', 'z1', 'c05a', 'c05b', 'cm', 'fun1', 'mk0', 'mk1', 'rramp', 'rfun', 'mc', 'mcc', 'seq']
+MARKER_KEYS = ['z0', 'z1', 'mk0', 'mk1', 'mk0b', 'c05a']
 CONST_LONG = ['k32', 'k35', 'k128', 'k70', 'k6', 'k12']
 
 _palette_cache = {}
@@ -107,6 +108,19 @@ def palette(key):
     elif key == 'mcc':
         # same values as c05a/c05b but built from two single-channel constants
         wf = both(W.ConstantWaveform(_tt(2), 0.5, 'A'), W.ConstantWaveform(_tt(2), -0.5, 'B'))
+    elif key == 'z0':
+        # marker-like channels: piecewise constant with a leading exact zero (0 -> L once merged with z1)
+        wf = const(F(1, 2), 0.0, 0.25)
+    elif key == 'z1':
+        wf = const(1, 1.0, 0.25)
+    elif key == 'mk0':
+        # analog ramp on A, marker low on B
+        wf = both(tab('A', [(0, 0, hold), (0.5, 0.5, lin)]), W.ConstantWaveform(_tt(F(1, 2)), 0.0, 'B'))
+    elif key == 'mk0b':
+        wf = both(tab('A', [(0, 0.5, hold), (1, -0.5, lin)]), W.ConstantWaveform(_tt(1), 0, 'B'))
+    elif key == 'mk1':
+        # analog ramp on A, marker high on B
+        wf = both(tab('A', [(0, 0.5, hold), (1, 0, lin)]), W.ConstantWaveform(_tt(1), 1.0, 'B'))
     elif key == 'seq':
         # an already merged leaf
         wf = W.SequenceWaveform([palette('tab1'), palette('c05a'), palette('fun1')])
@@ -631,7 +645,7 @@ def random_template(rng, depth=0):
         if k < 0.35:
             return ['table', rng.choice([1, 2, 0.5]), rng.choice([0, 0.5, -1]), rng.choice([1, 0.25, -0.5]), m]
         if k < 0.6:
-            return ['const', rng.choice([1, 0.5, 2, 8, 6]), rng.choice([0.5, -0.25]), m]
+            return ['const', rng.choice([1, 0.5, 2, 8, 6]), rng.choice([0.5, -0.25, 0, 0, 1]), m]
         if k < 0.85:
             return ['func', rng.choice([1, 2]), rng.choice([0.5, 0.25, -0.125]), m]
         return ['idx', rng.choice([1, 2])]
@@ -828,7 +842,7 @@ def check_sfg(ctx, bound):
 def family_exhaustive(ctx):
     rng = ctx.fork('exhaustive')
     quick = ctx.quick
-    trees = exhaustive_trees(5, rng, stride_last=30 if quick else 1)
+    trees = exhaustive_trees(5, rng, stride_last=40 if quick else 1)
     cases = []
     for t in trees:
         for op in ops_for(t, rng, full=not quick or count_nodes(t) <= 3):
@@ -836,7 +850,7 @@ def family_exhaustive(ctx):
     ctx.exhaustive_spaces.append(
         'Loop trees: every shape with <= %d nodes x counts {1,2,3} (leaf kinds / flags rotating), '
         'x flatten depth -1..3, cleanup variants, every unroll / split index, encapsulate, unroll_children, merge, '
-        '(min_len, quantum, rate) triples%s' % (5 if not quick else 4, '' if not quick else '; 5-node trees: every 30th'))
+        '(min_len, quantum, rate) triples%s' % (5 if not quick else 4, '' if not quick else '; 5-node trees: every 40th'))
     return cases
 
 
@@ -877,6 +891,30 @@ def family_templates(ctx):
     return cases
 
 
+def family_markers(ctx):
+    """marker-like channels (exactly 0, then one other level) in leaves that `make_compatible` merges:
+    every sequence of 2..3 leaves over MARKER_KEYS x counts {1,2} on the first leaf, flat and nested once"""
+    rng = ctx.fork('markers')
+    trees = []
+    for n in (2, 3):
+        for keys in itertools.product(MARKER_KEYS, repeat=n):
+            for r0 in (1, 2):
+                leaves = [[r0 if i == 0 else 1, False, False, k, []] for i, k in enumerate(keys)]
+                trees.append([1, False, False, None, leaves])
+                if n == 3:
+                    trees.append([2, False, False, None, [leaves[0], [1, False, False, None, leaves[1:]]]])
+    if ctx.quick:
+        trees = trees[::3] + rng.sample(trees, 40)
+    cases = []
+    for t in trees:
+        for a, b, c in ((4, 1, 2), (6, 2, 4), (16, 1, 4), (3, 1, 1)):
+            cases.append({'source': {'tree': t}, 'op': ['compat', a, b, str(F(c))]})
+        cases.append({'source': {'tree': t}, 'op': ['flatten', 1]})
+    ctx.exhaustive_spaces.append('marker leaves: sequences of 2..3 leaves over %s, merged by make_compatible%s'
+                                 % (MARKER_KEYS, ' (every third + 40 random)' if ctx.quick else ''))
+    return cases
+
+
 def family_malformed(ctx):
     """inputs outside the happy path: bad indices, leaves as targets, quantum 0, empty loops everywhere"""
     rng = ctx.fork('malformed')
@@ -900,7 +938,7 @@ def family_malformed(ctx):
 def run(ctx: core.Ctx):
     ctx.rule = ('real Loop trees with real Table/Constant/Function/Reversed/MultiChannel/Sequence waveforms on dyadic values: '
                 '(1) every tree shape with <= 5 nodes x repetition counts {1,2,3} x every rewrite and parameter '
-                '(quick: <= 4 nodes complete, every 30th 5-node tree), (2) random trees with <= 40 nodes incl. volatile '
+                '(quick: <= 4 nodes complete, every 40th 5-node tree), (2) random trees with <= 40 nodes incl. volatile '
                 'counts, measurements, empty loops, already merged leaves, (3) programs created by real pulse templates '
                 '(Table/Constant/Function/Sequence/Repetition/ForLoop/TimeReversal), (4) a malformed stream (bad indices, '
                 'leaf targets, quantum 0, non-integral sample counts). Non-trivial = the rewrite changed the tree or raised; '
@@ -915,8 +953,8 @@ def run(ctx: core.Ctx):
         replay(ctx, rec, from_corpus=True)
         ctx.corpus_replayed += 1
     check_sfg(ctx, ctx.n(40, 120))
-    fams = [('exhaustive', family_exhaustive), ('random', family_random), ('templates', family_templates),
-            ('malformed', family_malformed)]
+    fams = [('exhaustive', family_exhaustive), ('markers', family_markers), ('random', family_random),
+            ('templates', family_templates), ('malformed', family_malformed)]
     for name, fam in fams:
         cases = fam(ctx)
         check_cases(ctx, cases, name)
